@@ -387,7 +387,7 @@ func c15Conn(c *c15Case, seq string, given smtp.Auth, shared *c15Shared) (*c15Re
 			return nil, core.V("HARNESS-setup", "%v", err)
 		}
 		out.authErr = err
-	case <-time.After(15 * time.Second):
+	case <-time.After(c15Patience(seq)):
 		return nil, core.V("HARNESS-timeout", "Auth did not return for sequence %s", seq)
 	}
 	_ = cl.Close()
@@ -396,6 +396,15 @@ func c15Conn(c *c15Case, seq string, given smtp.Auth, shared *c15Shared) (*c15Re
 	case <-time.After(5 * time.Second):
 	}
 	return out, nil
+}
+
+// c15Patience: ten million PBKDF2 rounds (symbol P) take seconds on an idle core and much longer on a
+// busy machine; everything else is immediate.
+func c15Patience(seq string) time.Duration {
+	if strings.Contains(seq, "P") {
+		return 5 * time.Minute
+	}
+	return 15 * time.Second
 }
 
 func c15Run(c c15Case) []*core.Violation {
